@@ -37,10 +37,10 @@ def gen_data(rng, nmax=5):
     return out
 
 
-def layout(data):
+def layout(data, base=None):
     """declaration order from the first data address, each variable 4-byte aligned; returns
     (vars: name -> (addr, elem size, count), image: byte addr -> value, end address)"""
-    addr = DATA_BASE
+    addr = DATA_BASE if base is None else base
     vars_, img = {}, {}
     for d in data:
         addr = (addr + 3) & ~3
